@@ -114,30 +114,43 @@ def check_child_store(ctx, fx, RULE="R16.2"):
             continue
         n_w += 1
         b = ctx.body(fx, f)
-        keys = [t["gargs"][0] for _, t in b.normal_calls() if (t.get("callee") or "").endswith("TypeId::of") or (t.get("callee") or "") == "core::any::{impl#30}::of" or (t.get("callee") or "").endswith("::of") and "TypeId" in (t.get("destty") or "")]
-        stored = []
-        for key, ent in fx.dyn.items():
-            if key.startswith("dyn core::any::Any"):
-                for s, src in zip(ent["sites"], ent["sources"]):
-                    pass
-                for s in ent["sites"]:
-                    if s.get("in") == w:
-                        stored.append(s["src"])
-        ok = keys == [expect_m] and stored == ["addr::sender::Sender<%s>" % expect_m]
-        if not keys:
-            # the key may be computed by a method of the table's wrapper type instantiated at the message type:
-            # `self.children.slot::<M>()` with `fn slot<M>(&mut self) { self.0.entry(TypeId::of::<M>()) .. }`
-            for _bk, tk in b.normal_calls():
-                hk = fx.callee_fn(tk)
-                if hk is None or hk.get("is_async") or hk["def"] in WRITERS:
-                    continue
-                hkeys = [x["gargs"][0] for _y, x in ctx.body(fx, hk).normal_calls() if (x.get("callee") or "").endswith("::of") and "TypeId" in (x.get("destty") or "")]
-                gen = hk.get("generics") or []
-                ga = tk.get("gargs") or []
-                for hkey in hkeys:
-                    if hkey in gen and gen.index(hkey) < len(ga):
-                        keys.append(ga[gen.index(hkey)])
-            ok = keys == [expect_m] and stored == ["addr::sender::Sender<%s>" % expect_m]
+        keys, stored = [], []
+        any_sites = [s_ for key, ent in fx.dyn.items() if key.startswith("dyn core::any::Any") for s_ in ent["sites"]]
+
+        def scan(g, subst, depth):
+            """keys computed and values erased in `g` and its closures, and in the private helpers of the context they call
+            (`self.children_of_mut::<M>()`, `self.children.slot::<M>()`), the helpers' type parameters replaced by what
+            the call site passes"""
+            for gg in graph.family(fx, g["def"]):
+                gb = ctx.body(fx, gg)
+                for s_ in any_sites:
+                    if s_.get("in") == gg["def"]:
+                        stored.append(subst(s_["src"]))
+                for _bk, tk in gb.normal_calls():
+                    c = tk.get("callee") or ""
+                    if c.endswith("::of") and "TypeId" in (tk.get("destty") or "") and tk.get("gargs"):
+                        keys.append(subst(tk["gargs"][0]))
+                        continue
+                    hk = fx.callee_fn(tk)
+                    if hk is None or depth >= 2 or hk.get("is_async") or hk["kind"] not in ("fn", "assoc_fn") or hk["def"] in WRITERS or hk.get("vis") == "pub":
+                        continue
+                    if not (hk.get("impl_self") or "").startswith("context::"):
+                        continue
+                    gen = hk.get("generics") or []
+                    ga = tk.get("gargs") or []
+                    m = {gen[i]: subst(ga[i]) for i in range(min(len(gen), len(ga)))}
+
+                    def sub2(x, _m=m):
+                        import re as _re
+                        return _re.sub(r"\b(%s)\b" % "|".join(map(_re.escape, _m)), lambda mo: _m[mo.group(1)], x) if _m else x
+                    scan(hk, sub2, depth + 1)
+        scan(f, lambda x: x, 0)
+        stored = sorted(set(stored))
+        if expect_m == "M":
+            fx._child_store_form = list(stored)
+        # what is erased under the key of M is a Sender<M>, or the vector of them (one table entry per message type)
+        good_stored = (["addr::sender::Sender<%s>" % expect_m], ["alloc::vec::Vec<addr::sender::Sender<%s>, alloc::alloc::Global>" % expect_m])
+        ok = keys == [expect_m] and stored in good_stored
         if not keys and stored in ([], ["addr::sender::Sender<%s>" % expect_m]):
             # delegation: `self.register_child::<()>(child)` — the other writer instantiated at the expected message type,
             # given this function's own child parameter
@@ -188,7 +201,12 @@ def check_rest(ctx, fx):
         if False:
             for _ in ():
                 pass
-        ok = keys == ["M"] and casts == ["addr::sender::Sender<M>"]
+        # (the table entry may be the vector of the senders for M: then that is what the lookup casts back to, cf. the store rule)
+        ok = keys == ["M"] and casts in (["addr::sender::Sender<M>"], ["alloc::vec::Vec<addr::sender::Sender<M>, alloc::alloc::Global>"])
+        # ... and it casts back to what register_child erased (a different type would find nobody)
+        form = getattr(fx, "_child_store_form", None)
+        if form:
+            ok = ok and casts == form
         ctx.require(ok, "R16.2", "lookup:send_to_children", "broadcast must look up TypeId::of::<M>() and downcast to Sender<M>: keys %s casts %s" % (keys, casts), fn=f["def"], site=f["loc"], detail={"key": keys, "downcast": casts})
         # R16.3
         A = nfa.Alphabet(
